@@ -174,6 +174,7 @@ typedef struct ColumnSlashTable {
   unsigned int remainder;	/* extra space needed to fill out to width */
   int pres;			/* presision */
   format_info info;		/* formatting data */
+  char *owned;			/* the text d points into, when it was made for this element (%O): lives as long as the column / table */
   struct ColumnSlashTable *next;
 } cst;				/* Columns Slash Tables */
 
@@ -729,6 +730,8 @@ static int add_column (cst ** column, int trailing) {
       temp = col->next;
       if (col->pad)
         FREE (col->pad);
+      if (col->owned)
+        FREE_MSTR (col->owned);
       FREE (col);
       *column = temp;
       return ret;
@@ -784,6 +787,8 @@ static int add_table (cst ** table) {
         FREE (tab->pad);
       if (tab_d)
         FREE (tab_d);
+      if (tab->owned)
+        FREE_MSTR (tab->owned);
       FREE (tab);
       *table = temp;
       return 1;
@@ -863,6 +868,8 @@ char* string_print_formatted (char *format_str, int argc, svalue_t * argv) {
       cst *next = csts->next;
       if (!(csts->info & INFO_COLS) && csts->d.tab)
         FREE (csts->d.tab);
+      if (csts->owned)
+        FREE_MSTR (csts->owned);
       FREE (csts);
       csts = next;
     }
@@ -1172,6 +1179,13 @@ char* string_print_formatted (char *format_str, int argc, svalue_t * argv) {
                             ALLOCATE (cst, TAG_TEMPORARY, "string_print: 3");
                           (*temp)->next = 0;
                           (*temp)->d.col = carg->u.string;
+                          (*temp)->owned = 0;
+                          if (carg == &clean)
+                            {
+                              /* the column goes on after this element: it takes the text over */
+                              (*temp)->owned = clean.u.string;
+                              clean.type = T_NUMBER;
+                            }
                           (*temp)->pad = make_pad (&pad);
                           (*temp)->size = fs;
                           (*temp)->pres = (pres) ? pres : fs;
@@ -1196,6 +1210,12 @@ char* string_print_formatted (char *format_str, int argc, svalue_t * argv) {
 
                           (*temp) = ALLOCATE (cst, TAG_TEMPORARY, "string_print: 4");
                           (*temp)->d.tab = 0;
+                          (*temp)->owned = 0;
+                          if (carg == &clean)
+                            {
+                              (*temp)->owned = clean.u.string;
+                              clean.type = T_NUMBER;
+                            }
                           (*temp)->pad = make_pad (&pad);
                           (*temp)->info = finfo;
                           (*temp)->start = get_curpos ();
